@@ -220,6 +220,10 @@ def configs(tier: str, seed: int) -> list[dict]:
         for l in layouts:
             out.append({"name": f"h{h}-l{l}", "flavour": "h" + h, "hashseed": h, "layout": l,
                         "hook": False})
+    if tier == "quick":     # two more heap layouts under the reference hash seed
+        for l in (2, 3):
+            out.append({"name": f"h0-l{l}", "flavour": "h0", "hashseed": "0", "layout": l,
+                        "hook": False})
     pols = ["highest", "random", "lifo", "anti", "fifo", "rpo", "random", "starve"]
     for i in range(scheds):
         out.append({"name": f"h0-s{i}-{pols[i % len(pols)]}", "flavour": "h0", "hashseed": "0",
